@@ -132,6 +132,10 @@ def check_rec(crate, rep, cfg):
         leaves = tr.operand(op)
         if label == "render_component":
             ok = bool(leaves) and all(l.kind == "op" and l.detail[1] in ("Add", "AddWithOverflow") for l in leaves)
+            for l in leaves:
+                if l.kind == "op":
+                    d_ = b.blocks[l.detail[2]]["s"][l.detail[3]]["rv"]
+                    ok = ok and d_["r"]["k"] == "const" and str(d_["r"].get("v")) == "1"       # every nesting level counts, unconditionally
             what = "the child VM of render_component carries depth = parent depth + 1"
         else:
             ok = bool(leaves) and all(l.kind == "param" and l.detail == 1 and ".component_recursion_depth" in l.projs for l in leaves)
